@@ -159,7 +159,7 @@ def main(argv=None):
         cov.update(mod.mc_counts(res))
     ev = dict(property_id=pid, tier=a.tier, seed=seed, level=level, coverage=cov,
               assumptions=mod.ASSUMPTIONS, wall_s=round(time.time() - t0, 2), violations=len(violations))
-    if not a.only:
+    if not a.only and not os.environ.get("VERIF_NOEVIDENCE"):
         os.makedirs(os.path.join(ROOT, "evidence"), exist_ok=True)
         with open(os.path.join(ROOT, "evidence", f"{pid}.json"), "w") as f:
             json.dump(ev, f, indent=1, default=str)
